@@ -9,7 +9,7 @@ SUBS = ["I_R", "divU", "gradp", "p", "state"]
 
 
 def gen_chk(seed, path, nspecies=3, nghost=None, aniso=True, time=None, nlevels=None, bf=4,
-            base_blocks=(1, 3), zero_y=False, header_int=None, origin=None):
+            base_blocks=(1, 3), zero_y=False, header_int=None, origin=None, no_coord=False):
     rng = random.Random(seed)
     nprng = np.random.default_rng(seed)
     m = gen.gen_model(seed, ndims=3, nlevels=nlevels if nlevels else rng.randint(1, 3), nfields=1,
@@ -38,9 +38,11 @@ def gen_chk(seed, path, nspecies=3, nghost=None, aniso=True, time=None, nlevels=
             for b in m.boxes[lv]:
                 h.write("((" + ",".join(map(str, b.lo)) + ") (" + ",".join(map(str, b.hi)) + ") (0,0,0))\n")
             h.write(")\n")
-        h.write("101325\n0\n0\n")
+        # tail: ambient pressure, (coordinate system, 0,) typical values - the coordinate-system pair is not
+        # always there; then the first typical value (never a whole number here) follows the pressure directly
+        h.write("101325\n" if no_coord else "101325\n0\n0\n")
         for i in range(ncomp["state"]):
-            h.write(gen.fmt_repr(rng.random()) + "\n")
+            h.write(gen.fmt_repr(0.001 + 0.998 * rng.random()) + "\n")
     for lv in range(m.nlevels):
         ldir = os.path.join(path, f"Level_{lv}")
         os.makedirs(ldir)
